@@ -9,6 +9,7 @@
 -/
 import IvpModel.Proofs.TreesLemmas
 import IvpModel.Proofs.DenseEqs853
+import IvpModel.Proofs.BdfNumLemmas
 
 open BTree
 
@@ -30,3 +31,43 @@ theorem dopri5_dense_not_order5 : ∃ t : BTree, t.order = 5 ∧ dopri5Dense.con
   ⟨.graft (.graft (.graft (.graft .leaf .leaf) .leaf) .leaf) .leaf, by decide +kernel⟩
 theorem dop853_dense_not_order8 : ∃ t : BTree, t.order = 8 ∧ dop853Dense.condTreeApprox (10 ^ 8) t = false :=
   ⟨.graft (.graft (.graft (.graft (.graft (.graft (.graft .leaf .leaf) .leaf) .leaf) .leaf) .leaf) .leaf) .leaf, by decide +kernel⟩
+
+/-! ### BDF: the interpolant is the polynomial the step itself is built on
+
+  `Model/BdfNum.lean` (the full numeric model of `BDF::solve`, tied bit for bit by X-bdfnum): one component of
+  `BDF::interpolate` with order marker k is `interpScalar k c xi x_new h`, `c` the component's difference column. -/
+namespace BdfNum
+noncomputable section
+variable {K : Type} [Field K] [LinearOrder K] [IsStrictOrderedRing K] [SqrtPow K]
+
+/-- with `c j = ∇ʲ` of the accepted values `v 0 = y_{n+1}, v 1 = y_n, …` the interpolant of order k returns `v m` at
+    `x_{n+1} − m·h` for every `m ≤ k`: it is the degree-k polynomial through the last k+1 accepted values — the
+    polynomial whose derivative the BDF formula of order k equates with f, hence as accurate as the step (k = 1..5) -/
+theorem c07_bdf_interp_is_step_polynomial (L : NLits K) (hL : LitOK L) (v : Nat → K) (xNew h : K) (hh : h ≠ 0) (order m : Nat)
+    (ho : 1 ≤ order) (ho5 : order ≤ 5) (hm : m ≤ order) :
+    interpScalar L order (fun j => bdiff j v) (xNew - (m : K) * h) xNew h = v m :=
+  interp_nodes L hL v xNew h hh order m ho ho5 hm
+
+/-- the difference arrays hold those backward differences: an accepted step turns `∇ʲ` of the old history into `∇ᵏ` of
+    the history with the new value prepended (`delta = y_new − predictor`), for k ≤ order + 1 -/
+theorem c07_bdf_update_keeps_differences (v : Nat → K) (yNew : K) (order k : Nat) (ho : 1 ≤ order) (ho5 : order ≤ 5)
+    (hk : k ≤ order + 1) :
+    updCol (fun j => bdiff j v) (yNew - (List.range (order + 1)).foldl (fun s j => s + bdiff j v) 0) order k
+      = bdiff k (consSeq yNew v) :=
+  update_bdiff v yNew order k ho ho5 hk
+
+noncomputable local instance : SqrtPow ℚ := ⟨id, fun a _ => a⟩
+
+/-- the literals at ℚ -/
+def qLits : NLits ℚ :=
+  { zero := 0, one := 1, two := 2, half := 1/2, tenth := 1/10, safety := 9/10, minFactor := 1/5, maxFactor := 10, minPositive := 0,
+    inf := 0, stretch := 101/100, kappa := fun _ => 0, eps := 0, ten := 10, p03 := 3/100, em9 := 0 }
+
+/-- non-vacuity: for the cubic history v i = (3 − i)³ the order-3 interpolant reproduces v 2 = 1 two steps back -/
+example : interpScalar qLits 3 (fun j => bdiff j (fun i => ((3 : ℚ) - i) ^ 3)) (5 - 2 * 1) 5 1 = 1 := by
+  have := c07_bdf_interp_is_step_polynomial qLits ⟨rfl, rfl⟩ (fun i => ((3 : ℚ) - i) ^ 3) 5 1 (by norm_num) 3 2 (by norm_num) (by norm_num) (by norm_num)
+  norm_num at this ⊢
+  exact this
+
+end
+end BdfNum
